@@ -312,6 +312,11 @@ private:
             }
 
             if (m_closed.load(std::memory_order_acquire)) {
+                // An item may have been pushed between our pop() attempt
+                // and close(): buffered items are drained before "closed"
+                // is reported, so look once more now that no new item can
+                // be accepted.
+                if (!m_queue->empty()) continue;
                 return false;  // Closed and empty
             }
 
